@@ -101,4 +101,235 @@ theorem addQR_view (h : Hints) (g : GQR) (st : Option Stats) (b : Blk) :
     simp only [hk.qrs, hk.mms, hearl]
     rfl
 
+theorem addOpt_view {α : Type} (c : Bool) (o : Option α) (add : Blk → α → Blk × Nat) (y : Blk)
+    (hadd : ∀ y v, timeView (add y v).1 = timeView y) : timeView (addOpt c o add y).1 = timeView y := by
+  unfold addOpt; cases c <;> cases o <;> first | rfl | exact hadd y _
+
+/-- whether `add_malformed_message` stores an item (any member present) -/
+def mmStored (h : Hints) (g : GMM) (st : Option Stats) (b : Blk) : Bool :=
+  (addMM h g st b).mms.length != b.mms.length
+
+/-- `add_malformed_message` as the time model sees it -/
+theorem addMM_view (h : Hints) (g : GMM) (st : Option Stats) (b : Blk) :
+    ∃ other, timeView (addMM h g st b) = stepTime (timeView b) (.mm g.ts (on h.odh OtherDataHintsMask.malformed_messages) other) := by
+  unfold addMM
+  simp only
+  by_cases hen : on h.odh OtherDataHintsMask.malformed_messages = true
+  · simp only [hen, Bool.not_true, Bool.false_eq_true, if_false]
+    let b0 := setStats b st
+    let b1 : Blk := { b0 with earliest := updEarliest b0 g.ts }
+    let r1 := addOpt true g.clientIp addIp b1
+    let r2 := addOpt true g.serverIp addIp r1.1
+    let d : MMD := { sai := r2.2, port := g.serverPort, tf := g.transportFlags, payload := g.payload }
+    let r3 : Blk × Option Nat := if (d.sai.isSome || d.port.isSome || d.tf.isSome || d.payload.isSome) = true
+      then (let r := addMmd r2.1 d; (r.1, some r.2)) else (r2.1, none)
+    have v1 : timeView r1.1 = timeView b1 := addOpt_view _ _ addIp _ (fun _ _ => rfl)
+    have v2 : timeView r2.1 = timeView b1 := (addOpt_view _ _ addIp _ (fun _ _ => rfl)).trans v1
+    have v3 : timeView r3.1 = timeView b1 := by
+      dsimp only [r3]
+      split
+      · exact v2
+      · exact v2
+    have vb1 : timeView b1 = { timeView b with earliest := Timestamp.updEarliest (timeView b) g.ts } := by
+      show ({ earliest := updEarliest b0 g.ts, qrs := b0.qrs.map (·.ts), mms := b0.mms.map (·.ts) } : BlockTime) = _
+      have e0 : timeView b0 = timeView b := setStats_view b st
+      have : updEarliest b0 g.ts = Timestamp.updEarliest (timeView b) g.ts := by rw [updEarliest_view, e0]
+      rw [this]
+      have q : b0.qrs = b.qrs := by cases st <;> rfl
+      have m : b0.mms = b.mms := by cases st <;> rfl
+      rw [q, m]; rfl
+    refine ⟨r1.2.isSome || g.clientPort.isSome || r3.2.isSome, ?_⟩
+    unfold stepTime
+    simp only [Bool.not_true, Bool.false_eq_true, if_false]
+    show timeView (if (g.ts.isSome || r1.2.isSome || g.clientPort.isSome || r3.2.isSome) = true then { r3.1 with mms := r3.1.mms ++ [_] } else r3.1) = _
+    by_cases hs : (g.ts.isSome || r1.2.isSome || g.clientPort.isSome || r3.2.isSome) = true
+    · rw [if_pos hs]
+      have hs' : (g.ts.isSome || (r1.2.isSome || g.clientPort.isSome || r3.2.isSome)) = true := by
+        simpa [Bool.or_assoc] using hs
+      rw [if_pos hs']
+      have : timeView { r3.1 with mms := r3.1.mms ++ [({ ts := g.ts, cai := r1.2, cport := g.clientPort, mdi := r3.2 } : MMRec)] }
+          = { timeView r3.1 with mms := (timeView r3.1).mms ++ [g.ts] } := by
+        unfold timeView; simp only [List.map_append, List.map_cons, List.map_nil]
+      rw [this, v3, vb1]
+    · rw [if_neg hs]
+      have hs' : ¬ (g.ts.isSome || (r1.2.isSome || g.clientPort.isSome || r3.2.isSome)) = true := by
+        simpa [Bool.or_assoc] using hs
+      rw [if_neg hs', v3, vb1]
+  · have hen' : on h.odh OtherDataHintsMask.malformed_messages = false := by simpa using hen
+    refine ⟨false, ?_⟩
+    simp only [hen', Bool.not_false, if_true]
+    unfold stepTime
+    simp only [Bool.not_false, if_true]
+    exact setStats_view b st
+
+/-- address events carry no time -/
+theorem addAEC_view (h : Hints) (g : GAEC) (st : Option Stats) (b : Blk) : timeView (addAEC h g st b) = timeView b := by
+  unfold addAEC
+  simp only
+  split
+  · exact setStats_view b st
+  · split
+    · exact setStats_view b st
+    · exact setStats_view b st
+
+/-- the time of a buffered record -/
+def Rec.ts : Rec → Option Ts
+  | .qr g _ => g.ts
+  | .aec _ _ => none
+  | .mm g _ => g.ts
+
+def opTs : TimeOp → Option Ts
+  | .qr ts _ _ => ts
+  | .mm ts _ _ => ts
+  | .qrItem ts _ => ts
+  | .mmItem ts _ => ts
+  | .clear => none
+
+/-- every step of the builder is a step of the time model (or leaves the time members alone) -/
+theorem addRec_view (h : Hints) (b : Blk) (r : Rec) :
+    timeView (addRec h b r) = timeView b ∨ ∃ op, opTs op = r.ts ∧ timeView (addRec h b r) = stepTime (timeView b) op := by
+  cases r with
+  | qr g st => exact .inr ⟨_, rfl, addQR_view h g st b⟩
+  | aec g st => exact .inl (addAEC_view h g st b)
+  | mm g st => obtain ⟨o, ho⟩ := addMM_view h g st b; exact .inr ⟨_, rfl, ho⟩
+
+/-- a property of times holds for the earliest time and for every stored time -/
+def AllP (P : Ts → Prop) (b : BlockTime) : Prop := P b.earliest ∧ ∀ t ∈ b.times, P t
+
+theorem updEarliest_P (P : Ts → Prop) (b : BlockTime) (ts : Option Ts) (hb : P b.earliest) (hts : ∀ t, ts = some t → P t) :
+    P (Timestamp.updEarliest b ts) := by
+  unfold Timestamp.updEarliest
+  cases ts with
+  | none => exact hb
+  | some t => simp only; split
+              · exact hts t rfl
+              · exact hb
+
+theorem times_push_qr (b : BlockTime) (e : Ts) (s : Option Ts) (t : Ts) :
+    t ∈ ({ b with earliest := e, qrs := b.qrs ++ [s] } : BlockTime).times → t ∈ b.times ∨ s = some t := by
+  unfold BlockTime.times
+  simp only [List.filterMap_append, List.mem_append, List.mem_filterMap, List.mem_cons, List.not_mem_nil, or_false, id]
+  rintro ((⟨a, ha, rfl⟩ | ⟨a, rfl, rfl⟩) | ⟨a, ha, rfl⟩)
+  · exact .inl (.inl ⟨_, ha, rfl⟩)
+  · exact .inr rfl
+  · exact .inl (.inr ⟨_, ha, rfl⟩)
+
+theorem times_push_mm (b : BlockTime) (e : Ts) (s : Option Ts) (t : Ts) :
+    t ∈ ({ b with earliest := e, mms := b.mms ++ [s] } : BlockTime).times → t ∈ b.times ∨ s = some t := by
+  unfold BlockTime.times
+  simp only [List.filterMap_append, List.mem_append, List.mem_filterMap, List.mem_cons, List.not_mem_nil, or_false, id]
+  rintro (⟨a, ha, rfl⟩ | (⟨a, ha, rfl⟩ | ⟨a, rfl, rfl⟩))
+  · exact .inl (.inl ⟨_, ha, rfl⟩)
+  · exact .inl (.inr ⟨_, ha, rfl⟩)
+  · exact .inr rfl
+
+theorem step_allP (P : Ts → Prop) (h0 : P ⟨0, 0⟩) (b : BlockTime) (hb : AllP P b) (op : TimeOp) (hop : ∀ t, opTs op = some t → P t) :
+    AllP P (stepTime b op) := by
+  have he := fun ts (hts : ∀ t, ts = some t → P t) => updEarliest_P P b ts hb.1 hts
+  cases op with
+  | qr ts th other =>
+    unfold stepTime; simp only
+    by_cases hc : ((if th = true then ts else none).isSome || other) = true
+    · rw [if_pos hc]
+      refine ⟨he ts hop, fun t ht => ?_⟩
+      rcases times_push_qr b _ _ t ht with h1 | h1
+      · exact hb.2 t h1
+      · cases th with
+        | false => simp at h1
+        | true => exact hop t (by simpa [opTs] using h1)
+    · rw [if_neg hc]
+      exact ⟨he ts hop, hb.2⟩
+  | mm ts en other =>
+    unfold stepTime; simp only
+    split
+    · exact hb
+    · split
+      · refine ⟨he ts hop, fun t ht => ?_⟩
+        rcases times_push_mm b _ _ t ht with h1 | h1
+        · exact hb.2 t h1
+        · exact hop t h1
+      · exact ⟨he ts hop, hb.2⟩
+  | qrItem ts other =>
+    unfold stepTime; simp only
+    split
+    · refine ⟨he ts hop, fun t ht => ?_⟩
+      rcases times_push_qr b _ _ t ht with h1 | h1
+      · exact hb.2 t h1
+      · exact hop t h1
+    · exact hb
+  | mmItem ts other =>
+    unfold stepTime; simp only
+    split
+    · refine ⟨he ts hop, fun t ht => ?_⟩
+      rcases times_push_mm b _ _ t ht with h1 | h1
+      · exact hb.2 t h1
+      · exact hop t h1
+    · exact hb
+  | clear => exact ⟨h0, by intro t ht; simp [stepTime, BlockTime.init, BlockTime.times] at ht⟩
+
+/-- Both invariants of the time members hold in every block the builder produces: the earliest time is not later than any
+    stored time, and every time in the block (earliest and stored) is a time some buffered record carried, or the initial
+    zero time. -/
+theorem foldl_time_inv (P : Ts → Prop) (h0 : P ⟨0, 0⟩) (h : Hints) : ∀ (recs : List Rec) (b : Blk),
+    C17.TimeInv (timeView b) ∧ AllP P (timeView b) → (∀ r ∈ recs, ∀ t, r.ts = some t → P t) →
+    C17.TimeInv (timeView (recs.foldl (addRec h) b)) ∧ AllP P (timeView (recs.foldl (addRec h) b)) := by
+  intro recs
+  induction recs with
+  | nil => intro b hb _; exact hb
+  | cons r recs ih =>
+    intro b hb hr
+    rw [List.foldl_cons]
+    refine ih _ ?_ (fun r' hr' => hr r' (List.mem_cons_of_mem _ hr'))
+    rcases addRec_view h b r with e | ⟨op, hop, e⟩
+    · rw [e]; exact hb
+    · rw [e]
+      exact ⟨C17.step_inv _ hb.1 op, step_allP P h0 _ hb.2 op (fun t ht => hr r List.mem_cons_self t (hop ▸ ht))⟩
+
+theorem build_time_inv (P : Ts → Prop) (h0 : P ⟨0, 0⟩) (h : Hints) (recs : List Rec) (hrecs : ∀ r ∈ recs, ∀ t, r.ts = some t → P t) :
+    C17.TimeInv (timeView (build h recs)) ∧ AllP P (timeView (build h recs)) :=
+  foldl_time_inv P h0 h recs {} ⟨by intro t ht; simp [timeView, BlockTime.times] at ht, h0,
+    by intro t ht; simp [timeView, BlockTime.times] at ht⟩ hrecs
+
+/-- the written unsigned offset of a time not earlier than the reference: below 2^63, and the reader's addition recovers the time -/
+theorem offset_written (t e : Ts) (r : Nat) (hr : 1 ≤ r) (ht : C17.InRange t r) (he : C17.InRange e r)
+    (htn : t.ticks < r) (hen : e.ticks < r) (hle : lt t e = false) :
+    ∃ n, offsetOf t e r = some n ∧ n < two63 ∧ addTimeOffset e (toI64 n) r = .ok t := by
+  have hge : ¬ C17.inst t r < C17.inst e r := by
+    intro hlt
+    have := (C17.lt_iff t e r htn hen).2 hlt
+    rw [hle] at this; cases this
+  have hoff := C17.offset_exact t e r hr ht he
+  have hadd := C17.add_inverse t e r hr ht he htn
+  refine ⟨C17.inst t r - C17.inst e r, ?_, ?_, ?_⟩
+  · unfold offsetOf
+    rw [hoff]
+    simp only [ofI64]
+    congr 1
+    have h63 : C17.inst t r < two63 := ht
+    have : ((C17.inst t r : Int) - (C17.inst e r : Int)) % (two64 : Int) = ((C17.inst t r - C17.inst e r : Nat) : Int) := by
+      unfold two63 at h63; unfold two64
+      omega
+    rw [this]; rfl
+  · have h63 : C17.inst t r < two63 := ht
+    omega
+  · have h63 : C17.inst t r < two63 := ht
+    have : toI64 (C17.inst t r - C17.inst e r) = (C17.inst t r : Int) - (C17.inst e r : Int) := by
+      unfold toI64
+      rw [if_pos (by omega)]
+      omega
+    rw [this]; exact hadd
+
+/-- Every time stored in a block built from in-range records is written as an unsigned offset below 2^63 from the block's
+    earliest time, and adding that offset back to the earliest time gives the record's time exactly. -/
+theorem build_times_recovered (h : Hints) (recs : List Rec) (r : Nat) (hr : 1 ≤ r)
+    (hrecs : ∀ rec ∈ recs, ∀ t, rec.ts = some t → C17.InRange t r ∧ t.ticks < r) :
+    ∀ t ∈ (timeView (build h recs)).times,
+      ∃ n, offsetOf t (build h recs).earliest r = some n ∧ n < two63 ∧ addTimeOffset (build h recs).earliest (toI64 n) r = .ok t := by
+  intro t ht
+  have hinv := build_time_inv (fun t => C17.InRange t r ∧ t.ticks < r)
+    ⟨by show (0 * r + 0 : Nat) < two63; unfold two63; omega, by show (0 : Nat) < r; omega⟩ h recs hrecs
+  have hle := hinv.1 t ht
+  have hP := hinv.2
+  exact offset_written t (build h recs).earliest r hr (hP.2 t ht).1 hP.1.1 (hP.2 t ht).2 hP.1.2 hle
+
 end CdnsVerif.Model.Builder
